@@ -422,9 +422,22 @@ class Check:
         sys.exit(0)
 
 
+def _big_stack():
+    # extracted code recurses on unary numbers / long lists: give child processes a 1 GiB stack
+    import resource
+    try:
+        soft, hard = resource.getrlimit(resource.RLIMIT_STACK)
+        want = 1 << 30
+        if hard != resource.RLIM_INFINITY and hard < want:
+            want = hard
+        resource.setrlimit(resource.RLIMIT_STACK, (want, hard))
+    except Exception:
+        pass
+
+
 def run(cmd, inp=None, timeout=600, env=None, cwd=None, binary=False):
     r = subprocess.run(cmd, input=inp, capture_output=True, timeout=timeout, env=env, cwd=cwd,
-                       text=not binary)
+                       text=not binary, preexec_fn=_big_stack)
     return r
 
 
